@@ -159,15 +159,12 @@ def run_rules(ctx, res):
 def check(ctx):
     res = Result("C03", ctx["tier"], "other", ctx["seed"])
     run_rules(ctx, res)
-    # necessary conditions of the LALR(1) construction this property presupposes (imported from C17's clause check)
-    from .c17 import run_rules as c17_rules
-    from ..report import Result as _R2
-    r17 = _R2("C17", ctx["tier"], "other")
-    c17_rules(ctx, r17)
-    res.rule("R-C17-* (imported)", "the six structural necessary conditions of the LALR(1) construction (C17 clauses N1-N6: symmetric core equality, change flag covers all mutated components, re-enqueue exactly on growth, closure/look-ahead augmentation, a transition per symbol, FIRST-of-sequence clears the nullable flag on every early exit) — this property's statement presupposes the automaton is the LALR(1) automaton")
-    res.inst("R-C17-* (imported)", "C17-clauses", "", True, "%d instances, %d violations" % (len(r17.instances), len(r17.violations)))
-    for v in r17.violations:
-        res.violate(v.rule, v.key, v.where, v.msg, v.detail)
+    # necessary conditions of the tables this property presupposes: the LALR(1) construction clauses and the stages
+    # after it (C17's check on the same facts, which also re-evaluates C01's, C04's and C11's table rules)
+    from .c01 import import_violations
+    res.rule("R-C17-* (imported)", "the structural necessary conditions of the LALR(1) construction (C17 clauses N1-N8) and of the stages between the automaton and the emitted tables (C01 renumbering / goto / move / index rules, C04 single guarded writer and exhaustive scan, C11 look-ahead/action pairing) — the first offending token is only right if the tables are")
+    import_violations(ctx, res, "c17", "C17", None, "construction and table stages")
+    res.inst("R-C17-* (imported)", "C17 check re-evaluated", "", True, "see the `imported` instance")
     res.assume("not decided: that the reported token index is the smallest possible one (follows from correct LALR(1) tables, C17) — only consumption and identity are decided")
     res.assume("Peekable pulls at most one item ahead; map/chain/once are lazy (std contracts)")
     return finish(res, "Clause-level decision on the generator's `parse` template (parsed with syn after marker substitution): lazy token stream with exactly one token of look-ahead, `next()` only to shift or to hand back the offending token unchanged, end of input reported as None through the same end-of-input placeholder everywhere. The 9 snapshot tests pin this text for 7 grammars; the rule's value is for edits that also update snapshots and for name-collision cases no fixture has.")
